@@ -19,6 +19,7 @@ import (
 )
 
 type Engine struct {
+	bindErr map[*FuncContract]error
 	repo        string
 	module      string
 	fset        *token.FileSet
@@ -339,7 +340,11 @@ func (e *Engine) bindContracts() error {
 		}
 		fn, err := e.findFunc(fc)
 		if err != nil {
-			errs = append(errs, fmt.Sprintf("%s:%d: %v", fc.File, fc.Line, err))
+			// the function a contract names is gone: the properties it serves report it (contract-binds)
+			if e.bindErr == nil {
+				e.bindErr = map[*FuncContract]error{}
+			}
+			e.bindErr[fc] = fmt.Errorf("%s:%d: %v", fc.File, fc.Line, err)
 			continue
 		}
 		if other, dup := e.fnContract[fn]; dup {
